@@ -172,7 +172,12 @@ def gen_tmpl(rng):
     elif kind == 'css': K = [A[-1], W, A[mid], X] if rng.random() < 0.5 else [A[-1], A[mid], X]
     elif kind == 'bts': K = [A[-1], W]
     else: K = [A[-1], W, A[mid]]
-    arrK, depK = add(K, tK, n=1)
+    cbK = None
+    if kind == 'css' and rng.random() < 0.45:
+        # the later ride may not be boarded at the common stop (a drop-off-only call): the cut must then be abandoned as a whole -
+        # a half-applied one alights the first ride there and "walks" to the stop where the later ride really is boarded (C01-r7)
+        cbK = [1] * len(K); cbK[K.index(A[mid])] = 0
+    arrK, depK = add(K, tK, n=1, cb=cbK)
     tJ = arrK[-1] + rng.choice([300, 500])
     if kind == 'csl_walk':
         foot[(A[mid], W)] = (rng.choice([60, 100]), 80); J = [W, D]
